@@ -64,6 +64,8 @@ def run(ctx):
     tab = mod('athlon_score')._scoring_table
     rows = [(o['gender'], o['event_code']) for o in tab]
     for g, e in rows:
+        # the ESAA option of the score must not leak into later answers (it shares the M-800 row)
+        call(athlib.athlon_score, 'M', '800', 120.0, esaa=True)
         for s in range(-10, 1501):
             case = {'kind': 'needed', 'gender': g, 'event': e, 'target': s}
             ctx.count()
